@@ -168,6 +168,9 @@ func Run(k *fw.Case) {
 	if Redelivered(t) {
 		k.Count("delivered_twice_at_different_lines", 1)
 	}
+	if t.Deep > 0 {
+		k.Count("deeply_nested_constructs", 1)
+	}
 	if t.Split {
 		k.Count("bracket_opened_on_an_earlier_line", 1)
 	}
